@@ -287,6 +287,13 @@ def execute(spec):
             'KeyboardInterrupt': KeyboardInterrupt,
             'MemoryError': MemoryError
         }[fl.get('interrupt_exc', 'KeyboardInterrupt')]
+    if fl.get('actor_exc') is not None:
+        af = fl['actor_exc']
+        S.actor_fault = (af['actor'], af['nth'], {
+            'MemoryError': MemoryError,
+            'OSError': OSError,
+            'RuntimeError': RuntimeError,
+        }[af.get('exc', 'MemoryError')])
     if spec.get('jump_budget'):
         _enable_jump_budget(spec['jump_budget'])
 
